@@ -452,7 +452,9 @@ def rule_exit_scans(ctx):
 
 SUBSTEP_SCOPE = [('integrator.c', 'reb_integrator_part2'), ('integrator_mercurius.c', 'reb_mercurius_encounter_step'), ('integrator_trace.c', 'reb_integrator_trace_bs_step'),
                  ('integrator_trace.c', 'reb_integrator_trace_step'), ('rebound.c', 'reb_check_exit'), ('integrator_bs.c', 'reb_integrator_bs_step'),
-                 ('simulationarchive.c', 'reb_simulationarchive_heartbeat')]
+                 ('simulationarchive.c', 'reb_simulationarchive_heartbeat'),
+                 # swept-sphere tests of the line searches: the time of closest approach is a span along the last step
+                 ('collision.c', 'reb_collision_search'), ('collision.c', 'reb_tree_check_for_overlapping_trajectories_in_cell')]
 
 
 def rule_direction(ctx):
@@ -529,4 +531,7 @@ def run(ctx):
     rule_exit_machine(ctx)
     rule_sign_clamps(ctx)
     rule_status_table(ctx)
+    # split integrations: the synchronise at the end of integrate() must leave a keep_unsynchronized integrator exactly as it found it
+    from . import c09
+    c09.rule_keep_unsynchronized(ctx)
     ctx.not_decided.append('the 1e-12 finishing tolerance and floating-point coincidences of (t, dt, tmax); step counts; bitwise equality of split integrations; which boundary an exit condition is first seen at')
